@@ -9,6 +9,10 @@ pub fn or(lhs: &[u16], rhs: &[u16], visitor: &mut impl BinaryOperationVisitor) {
     let mut i = 0;
     let mut j = 0;
     while i < lhs.len() && j < rhs.len() {
+        #[cfg(roaring_verif)]
+        crate::verif_hooks::site(1, i, lhs.len());
+        #[cfg(roaring_verif)]
+        crate::verif_hooks::site(2, j, rhs.len());
         let a = unsafe { lhs.get_unchecked(i) };
         let b = unsafe { rhs.get_unchecked(j) };
         match a.cmp(b) {
@@ -39,6 +43,10 @@ pub fn and(lhs: &[u16], rhs: &[u16], visitor: &mut impl BinaryOperationVisitor) 
     let mut i = 0;
     let mut j = 0;
     while i < lhs.len() && j < rhs.len() {
+        #[cfg(roaring_verif)]
+        crate::verif_hooks::site(3, i, lhs.len());
+        #[cfg(roaring_verif)]
+        crate::verif_hooks::site(4, j, rhs.len());
         let a = unsafe { lhs.get_unchecked(i) };
         let b = unsafe { rhs.get_unchecked(j) };
         match a.cmp(b) {
@@ -59,6 +67,10 @@ pub fn sub(lhs: &[u16], rhs: &[u16], visitor: &mut impl BinaryOperationVisitor) 
     let mut i = 0;
     let mut j = 0;
     while i < lhs.len() && j < rhs.len() {
+        #[cfg(roaring_verif)]
+        crate::verif_hooks::site(5, i, lhs.len());
+        #[cfg(roaring_verif)]
+        crate::verif_hooks::site(6, j, rhs.len());
         let a = unsafe { lhs.get_unchecked(i) };
         let b = unsafe { rhs.get_unchecked(j) };
         match a.cmp(b) {
@@ -84,6 +96,10 @@ pub fn xor(lhs: &[u16], rhs: &[u16], visitor: &mut impl BinaryOperationVisitor) 
     let mut i = 0;
     let mut j = 0;
     while i < lhs.len() && j < rhs.len() {
+        #[cfg(roaring_verif)]
+        crate::verif_hooks::site(7, i, lhs.len());
+        #[cfg(roaring_verif)]
+        crate::verif_hooks::site(8, j, rhs.len());
         let a = unsafe { lhs.get_unchecked(i) };
         let b = unsafe { rhs.get_unchecked(j) };
         match a.cmp(b) {
